@@ -6,10 +6,10 @@ EXTRA["C34"] = {
             "NamespaceAccess (eval_namespace_access) is executed on a namespace whose `values` map and "
             "`exported_syms` set hold 0..2 entries with symbolic names, for a symbolic accessed name; z3 decides that "
             "a value is pushed iff the name is in both, that it is that name's value, and that every refusal is an "
-            "exception restoring exactly the receiver. A two-file native project is the user-visible oracle.",
+            "exception restoring exactly the receiver; and the real insert_imported_namespace (unqualified import) "
+            "copies exactly the exported definitions. A two-file native project is the user-visible oracle.",
     "note": "Trusted: rsx, association-list model of FxHashMap/FxHashSet, z3. The checker side "
-            "(infer_namespace_access), unqualified imports (insert_imported_namespace) and cyclic import loading are "
-            "file-system and whole-Env code, outside the claim.",
+            "(infer_namespace_access) and cyclic import loading are file-system and whole-Env code, outside the claim.",
     "design_ref": "DESIGN.md section 6, C34",
 }
 
